@@ -671,4 +671,122 @@ theorem recvReply_enabled (cfg : Cfg) (s : State o) (c : Nat) (hlt : c < s.n) (h
     simp only [Option.isSome_none, Bool.false_eq_true, false_or] at h
     rw [if_pos h]; simp
 
+
+/-- At quiescence of a serving (not stopped) server nothing is left over: the loop is in its
+receive state, the queue is empty, no execution is in progress, the target lock is free and the
+server side is finished with every request. -/
+theorem quiescent_resolved (cfg : Cfg) (s : State o) (hi : FullInv cfg s) (hcap : 0 < cfg.cap)
+    (hq : Quiescent cfg s) (hns : s.loop.isStopped = false) :
+    s.loop = .idle ∧ s.queue = [] ∧ s.spawned = [] ∧ s.readers = [] ∧ s.writer = none
+      ∧ ∀ c, c < s.n → (s.calls c).stage = .done := by
+  have hw := hi.base.wf
+  have hs := hi.base.st
+  -- no execution is in progress
+  have hnoexec : ∀ c, (s.calls c).stage ≠ .executing := by
+    intro c he
+    have hlt : c < s.n := hw.lt_of_stage (by rw [he]; simp)
+    by_cases hn : o.cancellable (s.calls c).m = true ∧ s.closed c = true
+    · exact execCancel_enabled cfg s c hlt he hn (hq (.execCancel c) rfl)
+    · exact execStep_enabled cfg s c hlt he hn (hq (.execStep c) rfl)
+  have hsp : s.spawned = [] := by
+    cases hsp : s.spawned with
+    | nil => rfl
+    | cons c t =>
+      exfalso
+      exact hnoexec c ((hs.exec c).2 (Or.inr (by rw [hsp]; simp)))
+  have hrd : s.readers = [] := by
+    cases hrd : s.readers with
+    | nil => rfl
+    | cons c t =>
+      exfalso
+      exact hnoexec c ((hs.rd c).1 (by rw [hrd]; simp)).2.1
+  have hwr : s.writer = none := by
+    cases hwr : s.writer with
+    | none => rfl
+    | some c =>
+      exfalso
+      exact hnoexec c ((hs.wr c).1 hwr).2.1
+  have hloop : s.loop = .idle := by
+    cases hl : s.loop with
+    | idle => rfl
+    | acquiring c =>
+      exfalso
+      exact acquire_enabled cfg s c hl (hw.llt c (Or.inl hl)) hwr hrd (hq .acquire rfl)
+    | running c =>
+      exfalso
+      exact hnoexec c ((hs.exec c).2 (Or.inl hl))
+    | stopped w => rw [hl] at hns; simp [Loop.isStopped] at hns
+  have herr : cfg.variant = .pinned → s.errQ = 0 := by
+    intro hv
+    refine Decidable.byContradiction (fun he => ?_)
+    exact serveErr_enabled cfg s hloop (by omega) hv (hq .serveErr rfl)
+  have hqueue : s.queue = [] := by
+    cases hqq : s.queue with
+    | nil => rfl
+    | cons c t =>
+      exfalso
+      exact dequeue_enabled cfg s c t hqq (hw.qlt c (by rw [hqq]; simp)) hloop herr (hq .dequeue rfl)
+  refine ⟨hloop, hqueue, hsp, hrd, hwr, ?_⟩
+  intro c hlt
+  cases hst : (s.calls c).stage with
+  | done => rfl
+  | sending =>
+    exfalso
+    rcases send_enabled cfg s c hlt hst (by rw [hqueue]; simpa using hcap) with h | h
+    · exact h (hq (.enqueue c) rfl)
+    · exact h (hq (.sendFail c) rfl)
+  | queued =>
+    exfalso
+    have := (hs.qmem c).2 hst
+    rw [hqueue] at this; simp at this
+  | acquiring =>
+    exfalso
+    have := (hs.acq c).2 hst
+    rw [hloop] at this; simp at this
+  | executing => exact absurd hst (hnoexec c)
+  | replying r => exfalso; exact deliver_enabled cfg s c r hlt hst (hq (.deliver c) rfl)
+  | reporting => exfalso; exact report_enabled cfg s c hlt hst (hq (.report c) rfl)
+
+/-- … and no caller is left waiting. -/
+theorem quiescent_no_waiting (cfg : Cfg) (s : State o) (hi : FullInv cfg s) (hcap : 0 < cfg.cap)
+    (hq : Quiescent cfg s) (hns : s.loop.isStopped = false) :
+    ∀ c, (s.calls c).cl ≠ .waiting := by
+  intro c hwait
+  have hw := hi.base.wf
+  have hlt : c < s.n := hw.lt_of_waiting hwait
+  have hdone := (quiescent_resolved cfg s hi hcap hq hns).2.2.2.2.2 c hlt
+  have hr := hw.rch c hlt
+  apply recvReply_enabled cfg s c hlt hwait _ (hq (.recvReply c) rfl)
+  rw [hr]
+  rcases hi.v.d1 c hlt hdone with h | h | h
+  · exact Or.inl h
+  · exact Or.inr (Or.inl h)
+  · rcases hi.v.d3 c hlt h with h' | h'
+    · have := (hi.v.d4 c hlt).1 h'
+      rw [hwait] at this; cases this
+    · exact Or.inr (Or.inr h')
+
+
+/-- once the reply sender of an issued call observes `closed()`, it stays so -/
+theorem closed_step (cfg : Cfg) (s s' : State o) (l : Label) (hw : WF s) (h : step cfg s l = some s')
+    (c : Nat) (hlt : c < s.n) (hc : s.closed c = true) : s'.closed c = true := by
+  have hrch := hw.rch
+  have hnch := hw.nch
+  have er := hrch c hlt
+  revert hc
+  cases l <;> step_inv h
+  all_goals first
+    | (intro hc; exact hc)
+    | (intro hc; simp [State.closed, upd_apply, startExec_calls] at hc er ⊢ <;> grind)
+
+/-- … and a cancellable execution of that call takes no further method step -/
+theorem frozen_step (cfg : Cfg) (s s' : State o) (l : Label) (hw : WF s) (h : step cfg s l = some s')
+    (c : Nat) (hlt : c < s.n) (hc : s.closed c = true) (hcan : o.cancellable (s.calls c).m = true) :
+    (∀ k, segCount c k s'.tr = segCount c k s.tr) ∧ (s'.calls c).pc = (s.calls c).pc := by
+  cases l <;> step_inv h
+  all_goals first
+    | (simp; done)
+    | (simp [upd_apply, startExec_calls, isSeg]; done)
+    | (simp [upd_apply, startExec_calls, isSeg] <;> grind)
+
 end Remoc.Rtc
